@@ -12,7 +12,7 @@ from streams.repair import parse_wb
 
 NO_MODEL = True
 HEADER = 3
-REQUIRED_SHAPES = ["first_backup_unrepairable", "second_backup_unrepairable", "reachable_backup_repaired", "stale_copy", "missing_copy"]
+REQUIRED_SHAPES = ["owner_without_fragment_repaired", "first_backup_unrepairable", "second_backup_unrepairable", "reachable_backup_repaired", "stale_copy", "missing_copy"]
 
 
 class Oracle:
@@ -44,6 +44,27 @@ class Oracle:
             owner, baks = self.route[key]
             self.hit("first_backup_unrepairable" if baks and victim == baks[0] else "second_backup_unrepairable")
             self.pending = (key, owner, baks, victim, r_outer)
+            return None
+        if name == "c.getx":
+            # the owner-without-fragment scenario: the read returns the newest copy, then every holder carries it
+            key = a[3]
+            owner, baks = self.route[key]
+            self.pending_plain = (a[2], key, owner, baks, reply)
+            return None
+        if name == "wb" and getattr(self, "pending_plain", None) and self.pending_plain[1] == a[1] and self.pending_plain[0] == a[0]:
+            dm, key, owner, baks, rget = self.pending_plain
+            self.pending_plain = None
+            seen = parse_wb(reply)
+            r = rget.split()
+            if len(r) != 3:
+                return "a read with the only copies on the backup owners returned %s" % rget[:80]
+            top = int(r[2][3:])
+            self.hit("owner_without_fragment_repaired")
+            for h in [(owner, "P")] + [(b, "B") for b in baks]:
+                c = seen.get(h)
+                if c is None or c[2] != top:
+                    return ("after a read with read-repair m%d (%s) holds %s, the newest version has timestamp %d "
+                            "(the owner had no fragment of the DMap for this partition before the read)" % (h[0], "owner" if h[1] == "P" else "backup owner", c, top))
             return None
         if name == "wb" and self.pending and self.pending[0] == a[1]:
             key, owner, baks, victim, r_outer = self.pending
@@ -77,6 +98,23 @@ class Gen:
         yield "watchdog 60s"
         yield "clock %d" % T0
         yield "c.new n=3 r=3 w=1 rq=1 rr=1 parts=%d tsize=4096" % r.choice([3, 7])
+        if getattr(self, "ep", 0) % 2 == 1:
+            # the owner has no fragment at all for this DMap and partition (nothing was ever written through it): the only
+            # copies are on the backup owners - the state of a freshly promoted owner.  One read repairs the owner and the
+            # stale backup owner.
+            for i in range(3):
+                dm = "rz%d" % i
+                key = hx(b"k%d" % r.randrange(40))
+                rep = yield "c.own %s %s" % (dm, key)
+                p, b = rep.split("pick=")[1].split()[0].split("/")
+                owner, baks = int(p.split(",")[-1]), [int(x) for x in b.split(",")]
+                yield "wb.put %d B %s %s %s 0 %d" % (baks[0], dm, key, hx(b"newest"), T0 + 2000)
+                if r.random() < 0.7:
+                    yield "wb.put %d B %s %s %s 0 %d" % (baks[1], dm, key, hx(b"stale"), T0 + 1000)
+                yield "wb %s %s" % (dm, key)
+                yield "c.getx %s %d %s %s" % (r.choice(["emb", "emb", "cli", "raw"]), r.choice([owner, owner, baks[0]]), dm, key)
+                yield "wb %s %s" % (dm, key)
+            return
         key = hx(b"k%d" % r.randrange(40))
         rep = yield "c.own dm %s" % key
         p, b = rep.split("pick=")[1].split()[0].split("/")
